@@ -165,13 +165,15 @@ func (s *TableAggregator) Trim(predicate func(col, row string, val int64) bool) 
 
 		removeAllInCol := true
 		for rowName, row := range s.rows {
-			if val := row.cols[colName]; predicate(colName, rowName, val) {
-				delete(row.cols, colName)
-				row.sum -= val
-				s.cols[colName] -= val
-				trimmed++
-			} else {
-				removeAllInCol = false
+			if val, hasCell := row.cols[colName]; hasCell {
+				if predicate(colName, rowName, val) {
+					delete(row.cols, colName)
+					row.sum -= val
+					s.cols[colName] -= val
+					trimmed++
+				} else {
+					removeAllInCol = false
+				}
 			}
 
 			if len(row.cols) == 0 {
